@@ -20,6 +20,15 @@ Theorem C20_frames_once_in_order : forall P s,
   o_frames (receive P s) = frames_of (firstn (o_reads (receive P s)) s).
 Proof. exact receive_frames. Qed.
 
+(* "exactly once", spelled out: distinct frames are never processed twice, and every frame that was
+   read is processed *)
+Theorem C20_no_frame_twice : forall P s, NoDup (frames_of s) -> NoDup (o_frames (receive P s)).
+Proof. exact receive_frames_nodup. Qed.
+
+Theorem C20_every_read_frame_processed : forall P s id k perr,
+  nth_error s k = Some (SFrame id perr) -> k < o_reads (receive P s) -> In id (o_frames (receive P s)).
+Proof. exact receive_frames_all. Qed.
+
 (* ---- transient failures are retried silently: deleting all of them from the history changes
    neither the frames processed, nor the errors reported, nor how the run ends *)
 Theorem C20_transient_silent : forall P s, p_cancel P = NoCancel ->
@@ -174,6 +183,8 @@ Example C20_ex_temporary_first : classify (EWrapFmt "use of closed file" (ESent 
 Proof. vm_compute. reflexivity. Qed.
 
 Print Assumptions C20_frames_once_in_order.
+Print Assumptions C20_no_frame_twice.
+Print Assumptions C20_every_read_frame_processed.
 Print Assumptions C20_transient_silent.
 Print Assumptions C20_unknown_and_proc_errors_reported_once.
 Print Assumptions C20_errors_once_in_order_any_schedule.
